@@ -145,6 +145,11 @@ def check_get_bases(idx: Index, rep: Report) -> None:
                     srcs = [unparse(s.value) for s in walk_local(f.node) if isinstance(s, (ast.Assign, ast.AugAssign, ast.AnnAssign)) and unparse(s.targets[0] if isinstance(s, ast.Assign) else s.target) == v.id and s.value is not None]
                     if not all(x in ("b", "None", "set[type[Attribute]]()") or "get_bases()" in x for x in srcs):
                         problems.append(("accumulated", f"`{v.id}` is built from {srcs}, not only from inner get_bases() results"))
+                elif re.fullmatch(r"set\(self\._based_constrs(\.keys\(\))?\)|self\._based_constrs\.keys\(\)|\{\*self\._based_constrs\}", unparse(v)):
+                    facts = {(unparse(a), p) for a, p in guard_facts(f.node, rt)}
+                    if ("self._abstr_constr is None", True) in facts or ("self._abstr_constr is not None", False) in facts or ("self._abstr_constr", False) in facts:
+                        continue
+                    problems.append(("dispatch-keys-as-bases", f"`{unparse(rt)}` answers with the keys of the exact-class dispatch table, which leaves out the abstract (non-final BaseAttr) alternative kept in _abstr_constr: the union claims a finite base set although it accepts instances of other classes, so an enclosing AllOf / AnyOf that intersects or dispatches on these bases rejects attributes this union accepts (the answer must be None when an abstract alternative is present)"))
                 else:
                     problems.append(("unknown-form", f"`{unparse(rt)}` not recognised"))
             if problems:
@@ -447,6 +452,37 @@ def check_param_arity(idx: Index, rep: Report) -> None:
         r.fail(f.fq, Finding("C09.R7", f.fq, "arity-unchecked", f"the pairwise loop over `{a}` / `{b}` runs without a preceding rejecting `len(..) != len(..)` test: zip stops at the shorter sequence", f.loc))
 
 
+def check_fresh_context(idx: Index, rep: Report) -> None:
+    """Variable bindings live in a ConstraintContext; a verification must start from an empty one.  A context created
+    inside a memoised function, at module level or as a default argument is shared between calls: a variable bound by
+    one isa() / verify() call constrains the next one."""
+    r = rep.rule("C09.R8", "a ConstraintContext is created per verification call: never inside a memoised function, at module level or as a default argument", floor=4)
+    n = 0
+    for rel in ("xdsl/utils/hints.py", "xdsl/irdl/constraints.py", "xdsl/irdl/attributes.py", "xdsl/irdl/operations.py"):
+        mi = idx.module(rel)
+        # module level / class level
+        for st in mi.tree.body:
+            if isinstance(st, (ast.Assign, ast.AnnAssign)) and st.value is not None and any(isinstance(c_, ast.Call) and unparse(c_.func).split(".")[-1] == "ConstraintContext" for c_ in ast.walk(st.value)):
+                n += 1
+                r.fail(f"{rel}:module", Finding("C09.R8", f"{mi.name}", f"shared-context:module:{st.lineno}", f"`{unparse(st)[:70]}` creates one ConstraintContext at import time", f"{rel}:{st.lineno}"))
+        for f in raw_funcs(mi):
+            calls = [c_ for c_ in calls_in(f.node) if unparse(c_.func).split(".")[-1] == "ConstraintContext"]
+            defaults = [d_ for d_ in list(f.node.args.defaults) + [k_ for k_ in f.node.args.kw_defaults if k_ is not None] if any(isinstance(c_, ast.Call) and unparse(c_.func).split(".")[-1] == "ConstraintContext" for c_ in ast.walk(d_))]
+            if not calls and not defaults:
+                continue
+            n += 1
+            inst = f"{f.fq}"
+            memo = [d_ for d_ in f.node.decorator_list if re.search(r"(^|\.)(cache|lru_cache|cached_property)$", unparse(d_.func if isinstance(d_, ast.Call) else d_))]
+            if defaults:
+                r.fail(inst, Finding("C09.R8", f.fq, "shared-context:default-argument", f"a ConstraintContext() default argument of {f.qualname} is evaluated once and shared by all calls", f.loc))
+            elif memo and calls:
+                r.fail(inst, Finding("C09.R8", f.fq, "shared-context:memoised", f"{f.qualname} is memoised (`@{unparse(memo[0])}`) and creates `{unparse(calls[0])}`: the same context object is handed out for every later call with an equal argument, so a constraint variable bound while checking one attribute (T := i32) is still bound when the next attribute is checked and `isa` answers False for an attribute the constraint accepts", f.loc))
+            else:
+                r.ok(inst, None)
+    if n < 4:
+        raise AnalysisError(f"only {n} ConstraintContext creation sites found")
+
+
 def check(idx: Index, rep: Report, tier: str) -> str:
     rep.run(check_get_bases, idx, rep)
     rep.run(check_relax, idx, rep)
@@ -454,6 +490,7 @@ def check(idx: Index, rep: Report, tier: str) -> str:
     rep.run(check_binding_order, idx, rep)
     rep.run(check_var_binding, idx, rep, "C09.R6")
     rep.run(check_param_arity, idx, rep)
+    rep.run(check_fresh_context, idx, rep)
     return (
         "Guarded-action and table rules over xdsl/irdl/constraints.py and the constraint classes of builtin.py / "
         "bufferization.py: soundness of AnyOf's exact-class dispatch (every get_bases override), inclusion-guarded absorption "
